@@ -37,6 +37,7 @@ type vWorld struct {
 	recs    []*vRec
 	applied []int // tags passed to Apply, in call order
 	okTags  []int // tags whose Apply returned a state
+	consumed []string // commitment in force (of the operation's own chain) when it was applied
 	native  map[string]string
 }
 
@@ -274,6 +275,11 @@ func (vApplier) Apply(op *operation.AnchoredOperation, rm *protocol.ResolutionMo
 		return nil, VErr("operation rejected by applier")
 	}
 	vW.okTags = append(vW.okTags, i)
+	if op.Type == operation.TypeUpdate {
+		vW.consumed = append(vW.consumed, rm.UpdateCommitment)
+	} else {
+		vW.consumed = append(vW.consumed, rm.RecoveryCommitment)
+	}
 	return res, nil
 }
 
@@ -309,7 +315,7 @@ func (s *vOpStore) Get(string) ([]*operation.AnchoredOperation, error) {
 
 // vResolve runs the REAL OperationProcessor.Resolve over the given published / unpublished operations.
 func vResolve(pub, unpub []*operation.AnchoredOperation, opts ...document.ResolutionOption) (*protocol.ResolutionModel, error) {
-	vW.applied, vW.okTags = nil, nil
+	vW.applied, vW.okTags, vW.consumed = nil, nil, nil
 	p := New("verif", &vOpStore{ops: pub}, vClient{}, WithUnpublishedOperationStore(&vOpStore{ops: unpub, err: len(unpub) == 0}))
 	return p.Resolve("suffix", opts...)
 }
@@ -474,3 +480,19 @@ func vRefChain(cands []*operation.AnchoredOperation, st *protocol.ResolutionMode
 	}
 	return st
 }
+
+// vWorldSetup builds N records with types chosen by case split; every other attribute symbolic.
+func vWorldSetup(n int, firstIsCreate bool) {
+	vW = &vWorld{}
+	vInstallCommitStub()
+	for i := 0; i < n; i++ {
+		k := 0
+		if i > 0 || !firstIsCreate {
+			k = VNondetRange("type", 0, 3)
+		}
+		r := vNewRec(vOpType(k))
+		VAssume(vCommit(r.reveal) != "") // an encoded multihash is never empty
+		vW.recs = append(vW.recs, r)
+	}
+}
+
